@@ -558,6 +558,82 @@ pub fn check_nested(c: &NestedCase) -> CheckResult {
     Ok(CaseInfo::new(src.nested > 0).class_if(src.nested > 0, "nested-construction-happened"))
 }
 
+/// A `JitterRng` whose timer closure itself draws from another `JitterRng` (on the same thread,
+/// in the middle of the outer instance's collection) and then returns the scripted reading: the
+/// inner instance is just another instance, so the outer one must return what it returns over
+/// the plain scripted timer, and nothing may panic.
+#[derive(Clone, Debug, Serialize, Deserialize)]
+pub struct NestedTimerCase {
+    pub outer: gens::TimerProg,
+    pub inner: gens::TimerProg,
+    pub rounds: u8,
+    pub ops: Vec<JOp>,
+    /// the inner instance is used at every k-th reading of the outer timer (k >= 1)
+    pub every: usize,
+}
+
+/// traces of the outer instance over the plain timer (`nested` = false) or over a timer closure
+/// that also draws from an inner JitterRng
+pub fn nested_timer_trace(c: &NestedTimerCase, nested: bool) -> Vec<String> {
+    use rand_core::RngCore;
+    use std::sync::{Arc, Mutex};
+    {
+        let script = c.outer.script();
+        let cursor = Arc::new(std::sync::atomic::AtomicUsize::new(0));
+        let inner_timer = crate::timer::ScriptTimer::new(c.inner.script(), crate::ops::JITTER_BUDGET);
+        let mut inner_rng = rand_jitter::JitterRng::new_with_timer(inner_timer.closure());
+        inner_rng.set_rounds(1);
+        let inner = Arc::new(Mutex::new(inner_rng));
+        let every = c.every.max(1);
+        let (sc, cur, inn) = (script.clone(), cursor.clone(), inner.clone());
+        let timer = move || {
+            let i = cur.fetch_add(1, std::sync::atomic::Ordering::SeqCst);
+            if nested && i % every == 0 {
+                if let Ok(mut b) = inn.try_lock() {
+                    let _ = b.next_u32();
+                }
+            }
+            sc.at(i)
+        };
+        let mut a = rand_jitter::JitterRng::new_with_timer(timer);
+        a.set_rounds(c.rounds.max(1));
+        let mut out = Vec::new();
+        for op in &c.ops {
+            let r = std::panic::catch_unwind(std::panic::AssertUnwindSafe(|| match op {
+                JOp::U32 => format!("{:#x}", a.next_u32()),
+                JOp::U64 => format!("{:#x}", a.next_u64()),
+                JOp::Fill(n) => {
+                    let mut b = vec![0xA5u8; *n];
+                    a.fill_bytes(&mut b);
+                    crate::hexser::hex(&b)
+                }
+                JOp::Stats(v) => format!("{}", a.timer_stats(*v)),
+                JOp::Rounds(r) => {
+                    a.set_rounds((*r).max(1));
+                    String::new()
+                }
+                JOp::TestTimer => format!("{:?}", a.test_timer().map_err(crate::adapter::map_timer_error)),
+                JOp::Clone => String::new(),
+            }));
+            match r {
+                Ok(v) => out.push(format!("{} @{}", v, cursor.load(std::sync::atomic::Ordering::SeqCst))),
+                Err(_) => out.push(format!("<panic: {}>", crate::engine::panic_signature(&crate::engine::take_last_panic().unwrap_or_default()))),
+            }
+        }
+        out
+    }
+}
+
+pub fn check_nested_timer(c: &NestedTimerCase) -> CheckResult {
+    let plain = nested_timer_trace(c, false);
+    let nested = nested_timer_trace(c, true);
+    if plain != nested {
+        let k = plain.iter().zip(nested.iter()).position(|(a, b)| a != b).unwrap_or(0);
+        return Err(Fail::new("C19:depends-on-nested-instance:JitterRng", format!("op #{} {:?} of a JitterRng whose timer closure draws from another JitterRng on the same thread differs from the same instance over the plain scripted timer (storage shared between instances)", k, c.ops.get(k))).exp_act(plain.get(k), nested.get(k)));
+    }
+    Ok(CaseInfo::new(!c.ops.is_empty()).class(format!("inner-used-every:{}", c.every.clamp(1, 4))))
+}
+
 /// many threads constructing generators of one type at the same moment (from_seed, seed_from_u64,
 /// from_rng over private sources), repeatedly; every generator must be the one the same
 /// construction gives when nothing else runs
@@ -863,6 +939,15 @@ pub fn def(ctx: &Ctx) -> PropDef {
             ));
         }
         subs.push(PSub::boxed(
+            "nested-timer/JitterRng",
+            t.pick(300, 30_000),
+            || {
+                let ops = proptest::collection::vec(prop_oneof![8 => crate::props::c12::jop(12), 1 => Just(JOp::TestTimer)], 1..=4);
+                (gens::timer_prog(false, 6), gens::timer_prog(false, 4), 1u8..=3, ops, prop_oneof![3 => Just(1usize), 2 => 2usize..=7]).prop_map(|(outer, inner, rounds, ops, every)| NestedTimerCase { outer, inner, rounds, ops, every }).boxed()
+            },
+            check_nested_timer,
+        ));
+        subs.push(PSub::boxed(
             "ctor-cross-type",
             t.pick(6000, 600_000),
             || {
@@ -920,7 +1005,7 @@ pub fn def(ctx: &Ctx) -> PropDef {
     }
     PropDef {
         id: "C19",
-        rule: "scenario = up to 6 generator instances (types drawn from the 19 deterministic types + scripted JitterRng, with deliberate repeats: identical twins, same seed with another history, same type with another seed; zero seeds; scripted JitterRng also with the round count new_with_timer starts with, after a real-clock JitterRng::new() earlier in the checker process; half of the JitterRng instances are driven through their whole public API (timer_stats, set_rounds, test_timer besides the output calls, with the number of timer readings consumed in the trace), a third of those on a timer that test_timer must reject; a dedicated fresh-process sub-check runs 2-4 such instances in one fresh child process against each alone in a fresh child process; construction is part of the history and happens on the scheduled thread) + a generated schedule of (instance, worker thread) pairs over 1..4 real OS threads: a coordinator hands the boxed generator and one operation to the scheduled worker and gets both back, so exactly one operation runs at a time and the interleaving, including migrations between threads, is the generated one. Oracle: every instance's trace equals its solo replay in a fresh thread, executed both before and after the interleaved run. Free-running mode: instances partitioned over 2..8 unsynchronised threads, repeated. Fresh-process mode: the traces of instances created and advanced round-robin inside the long-lived checker process (where thousands of other generators were created before) must equal the traces each instance produces alone in a freshly spawned child process, so process-wide lazily initialised state cannot hide; in half of these cases the whole scenario itself runs in a fresh child process of its own, so that its own construction order decides the initialisation order of anything process-wide (zero seeds are frequent here). Seed-pair enumeration: for one base seed per type and run, every seed that differs from it in exactly one or two bits (32 896 pairs for 32-byte seeds) is constructed right after the base seed\u{2019}s generator and must equal the same generator constructed after an unrelated one. Constructor pairs: the same key material (a 64-bit value in little-endian bytes, zero-padded or followed by generated bytes) handed back to back to two of from_seed / seed_from_u64 / from_rng, in both orders, against the same constructions made after unrelated instances. Cross-type pairs: the same 64-bit value (or the same leading seed bytes) handed to the same constructor route of two different generator types back to back. Nested construction: from_rng over a source that creates and uses another instance of the same type half-way through delivering the seed bytes, against the plain source. Parallel construction: 2-8 threads constructing 8-48 generators of one type each at the same moment through all three routes, against the same constructions made alone. Static part: a probe crate asserting Send + Sync for every type is compiled against the current tree. Non-trivial = >= 2 instances of the same type advanced alternately and >= 1 thread migration; distinct by hash of the scenario.".into(),
+        rule: "scenario = up to 6 generator instances (types drawn from the 19 deterministic types + scripted JitterRng, with deliberate repeats: identical twins, same seed with another history, same type with another seed; zero seeds; scripted JitterRng also with the round count new_with_timer starts with, after a real-clock JitterRng::new() earlier in the checker process; half of the JitterRng instances are driven through their whole public API (timer_stats, set_rounds, test_timer besides the output calls, with the number of timer readings consumed in the trace), a third of those on a timer that test_timer must reject; a dedicated fresh-process sub-check runs 2-4 such instances in one fresh child process against each alone in a fresh child process; construction is part of the history and happens on the scheduled thread) + a generated schedule of (instance, worker thread) pairs over 1..4 real OS threads: a coordinator hands the boxed generator and one operation to the scheduled worker and gets both back, so exactly one operation runs at a time and the interleaving, including migrations between threads, is the generated one. Oracle: every instance's trace equals its solo replay in a fresh thread, executed both before and after the interleaved run. Free-running mode: instances partitioned over 2..8 unsynchronised threads, repeated. Fresh-process mode: the traces of instances created and advanced round-robin inside the long-lived checker process (where thousands of other generators were created before) must equal the traces each instance produces alone in a freshly spawned child process, so process-wide lazily initialised state cannot hide; in half of these cases the whole scenario itself runs in a fresh child process of its own, so that its own construction order decides the initialisation order of anything process-wide (zero seeds are frequent here). Seed-pair enumeration: for one base seed per type and run, every seed that differs from it in exactly one or two bits (32 896 pairs for 32-byte seeds) is constructed right after the base seed\u{2019}s generator and must equal the same generator constructed after an unrelated one. Constructor pairs: the same key material (a 64-bit value in little-endian bytes, zero-padded or followed by generated bytes) handed back to back to two of from_seed / seed_from_u64 / from_rng, in both orders, against the same constructions made after unrelated instances. Cross-type pairs: the same 64-bit value (or the same leading seed bytes) handed to the same constructor route of two different generator types back to back. Nested construction: from_rng over a source that creates and uses another instance of the same type half-way through delivering the seed bytes, against the plain source. Nested timer: a JitterRng whose timer closure draws from another JitterRng on the same thread (inside the outer instance's collection) against the same instance over the plain scripted timer. Parallel construction: 2-8 threads constructing 8-48 generators of one type each at the same moment through all three routes, against the same constructions made alone. Static part: a probe crate asserting Send + Sync for every type is compiled against the current tree. Non-trivial = >= 2 instances of the same type advanced alternately and >= 1 thread migration; distinct by hash of the scenario.".into(),
         explanation: None,
         assumptions: vec![
             "interleavings inside one operation are not enumerated (the crates contain no synchronisation primitives to instrument)".into(),
